@@ -13,6 +13,7 @@ pub mod c12;
 pub mod c13;
 pub mod c14;
 pub mod c18;
+pub mod c20;
 
 use crate::engine::Report;
 
@@ -41,6 +42,7 @@ pub fn run(id: &str, rep: &mut Report) -> bool {
         "C13" => c13::run(rep),
         "C14" => c14::run(rep),
         "C18" => c18::run(rep),
+        "C20" => c20::run(rep),
         _ => return false,
     }
     true
